@@ -174,6 +174,16 @@ pub async fn run(args: &Args, rep: &mut Reporter) {
             ever.entry(*id).or_default().extend(recs.iter().map(|r| r.commit));
         }
 
+        // every event any device had committed before the concurrent phase
+        let mut committed: BTreeMap<LogId, BTreeSet<[u8; 32]>> = BTreeMap::new();
+        for d in 0..n {
+            if let Ok(dl) = w.device_logs(d).await {
+                for (id, recs) in &dl {
+                    committed.entry(*id).or_default().extend(recs.iter().map(|r| r.commit));
+                }
+            }
+        }
+
         // ---- concurrent syncs under the explore scheduler -------------------------------
         let (tx, mut rx) = mpsc::unbounded_channel::<Msg>();
         let (stx, mut srx) = mpsc::unbounded_channel::<Event>();
@@ -425,6 +435,22 @@ pub async fn run(args: &Args, rep: &mut Reporter) {
         }
         if converged {
             rep.count("converged_after_concurrency", 1);
+            // (2b) after convergence nothing that was committed or accepted is lost for good
+            if let Ok(now) = w.server_logs().await {
+                for (id, set) in committed.iter().chain(ever.iter()) {
+                    let have: BTreeSet<[u8; 32]> = now.get(id).map(|r| r.iter().map(|x| x.commit).collect()).unwrap_or_default();
+                    let lost: Vec<String> = set.difference(&have).map(hex3).collect();
+                    rep.count("lost_for_good_checks", 1);
+                    if !lost.is_empty() {
+                        rep.violation(
+                            &format!("C09:{backend}:event_lost_after_convergence:{}", id.class()),
+                            &format!("{} event(s) committed by a device or accepted by the server before/during the concurrent syncs are in no replica's {id:?} log after all replicas converged: {lost:?}", lost.len()),
+                            ctx.clone(),
+                        );
+                        break;
+                    }
+                }
+            }
             let mut views = vec![];
             for d in 0..n {
                 let mut a = w.devices[d].account.lock().await;
